@@ -40,6 +40,7 @@ func init() {
 	}, func(e *Env) {
 		e.RRoleFilter()
 		e.RResolvePath()
+		e.RResolverFile()
 		e.RResolverClauses()
 		e.RResolverErrorsFirst()
 		e.RErr(e.pkgs(load.PkgDecorator, load.PkgGoast, load.PkgGotypes), 85)
